@@ -114,6 +114,10 @@ pub fn run_sched_conv(sc: &SchedConvCase) -> SchedObs {
         let (client, conn) = rt::mem::pair();
         if sc.intr > 0 {
             client.set_write_interrupts(sc.intr as usize);
+            // (with an odd period the transport also takes short writes)
+            if sc.intr % 2 == 1 {
+                client.set_write_max(600);
+            }
         }
         // the client stream in the generated segmentation: queued up front, or sent by a client
         // task with pauses
